@@ -106,11 +106,12 @@ def run(ctx, replay):
         if thorough:
             runs = [("mc1", cfg(nmx=(1,), kinds="Kinds5", maxmsgs=3)),
                     ("mc2", cfg(nmx=(2,), stlscert="AllStlsCert", tlsa="SmallTlsa", kinds="Kinds4",
-                                maxmsgs=3, dnsfail=False))]
+                                maxmsgs=3, dnsfail=False, slow=("TRUE", "FALSE")))]
         else:
             runs = [("mc1", cfg(nmx=(1,), kinds="Kinds4", maxmsgs=3)),
                     ("mc2", cfg(nmx=(2,), mintls=(0, 2), minmx=(0, 1), override=("TRUE",), sts=("none", "enforce"),
-                                stlscert="QuickStlsCert", tlsa="QuickTlsa", maxmsgs=3, dnsfail=False))]
+                                stlscert="QuickStlsCert", tlsa="QuickTlsa", maxmsgs=3, dnsfail=False,
+                                slow=("TRUE", "FALSE")))]
         states = trans = depth = 0
         for name, text in runs:
             r = ctx.tlc_expect_ok("Remote", None, name=name, workers=w, timeout=3000, cfg_text=text)
